@@ -140,3 +140,13 @@ func getValidationOptions(ctx context.Context) *ValidationOptions {
 	}
 	return &ValidationOptions{}
 }
+
+// withExamplesValidatedAs returns a context in which examples are validated as part of a request (asReq)
+// or as part of a response. The options are copied: those of ctx, which are shared with everything that is
+// validated after the request body or response at hand, are left as they are, and the mode is recorded
+// even when ctx carries no options at all.
+func withExamplesValidatedAs(ctx context.Context, asReq bool) context.Context {
+	vo := *getValidationOptions(ctx)
+	vo.examplesValidationAsReq, vo.examplesValidationAsRes = asReq, !asReq
+	return context.WithValue(ctx, validationOptionsKey{}, &vo)
+}
